@@ -119,7 +119,16 @@ func (vc *VC) call(fr *Frame, st *State, instr *ssa.Call, c *ssa.CallCommon) {
 	}
 	fn, mc := vc.resolveStatic(fr, c)
 	if fn == nil {
-		// call through a function value
+		// call through a function value: a function-typed struct field may carry a contract
+		if key, base, ok := vc.funcFieldKey(c.Value); ok {
+			if con := vc.eng.contractsByKey[key]; con != nil {
+				vc.dynSig = sig
+				rs := vc.applyContract(fr, st, con, nil, nil, append([]Term{vc.val(fr, base)}, args...), base.Type(), pos)
+				vc.setResults(fr, instr, rs)
+				vc.assumed["function-typed field "+key+" is assumed to hold a function satisfying the field's contract (each function bound to it is verified against the same clauses)"] = true
+				return
+			}
+		}
 		vc.unknownCall(fr, st, instr, sig, "dynamic call through "+c.Value.Name()+" in "+vc.eng.funcName(fr.fn))
 		return
 	}
@@ -156,6 +165,28 @@ func (vc *VC) call(fr *Frame, st *State, instr *ssa.Call, c *ssa.CallCommon) {
 		return
 	}
 	vc.unknownCall(fr, st, instr, sig, key)
+}
+
+// funcFieldKey recognises a call target of the form *(&base.field) and names its contract key.
+func (vc *VC) funcFieldKey(v ssa.Value) (string, ssa.Value, bool) {
+	u, ok := v.(*ssa.UnOp)
+	if !ok || u.Op != token.MUL {
+		return "", nil, false
+	}
+	fa, ok := u.X.(*ssa.FieldAddr)
+	if !ok {
+		return "", nil, false
+	}
+	pt, ok := fa.X.Type().Underlying().(*types.Pointer)
+	if !ok {
+		return "", nil, false
+	}
+	n, ok := pt.Elem().(*types.Named)
+	if !ok || n.Obj().Pkg() == nil {
+		return "", nil, false
+	}
+	st := n.Underlying().(*types.Struct)
+	return n.Obj().Pkg().Path() + ".(*" + n.Obj().Name() + ")." + st.Field(fa.Field).Name(), fa.X, true
 }
 
 func (vc *VC) pureFnResults(fr *Frame, st *State, fn *ssa.Function, args []Term) []Term {
